@@ -13,15 +13,15 @@ open PgVerif.Spec.SqlExport (one isWord isOp signedNum floatCell value values)
 def closeB : Bnd := fun o => ∀ c, o = some c → c = 44 ∨ c = 41 ∨ c = 93
 
 theorem close_facts (c : UInt8) (h : c = 44 ∨ c = 41 ∨ c = 93) :
-    isIdentCont c = false ∧ c ≠ 39 ∧ c ≠ 38 ∧ c ≠ 34 ∧ isSpace c = false ∧ c ≠ 46 := by
+    isIdentCont c = false ∧ c ≠ 39 ∧ c ≠ 38 ∧ c ≠ 34 ∧ isSpace c = false ∧ c ≠ 46 ∧ c ≠ 45 := by
   rcases h with h | h | h <;> subst h <;> decide
 
 theorem closeB_wordB : ∀ o, closeB o → wordB o := fun _ h c hc => by
   have := close_facts c (h c hc); exact ⟨this.1, this.2.1, this.2.2.1⟩
 theorem closeB_strB : ∀ o, closeB o → strB o := fun _ h c hc => by
-  have := close_facts c (h c hc); exact ⟨this.2.1, this.2.2.2.2.1⟩
+  have := close_facts c (h c hc); exact ⟨this.2.1, this.2.2.2.2.1, this.2.2.2.2.2.2⟩
 theorem closeB_numB : ∀ o, closeB o → numB o := fun _ h c hc => by
-  have := close_facts c (h c hc); exact ⟨this.1, this.2.2.2.2.2⟩
+  have := close_facts c (h c hc); exact ⟨this.1, this.2.2.2.2.2.1⟩
 
 /-- tokens of a number text: `-` is an operator of its own -/
 def numTextToks (text : Bytes) : List Tok :=
@@ -44,7 +44,8 @@ def valueToks (F : FloatFmt) : GoVal → List Tok
   | .f64 b => floatToks (F.v64 b)
   | .f32 b => floatToks (F.v32 b)
   | .str s => [.str s]
-  | .arr xs => .word (asc "array") :: .op [91] :: (elemsToks F xs ++ [.op [93]])
+  | .arr [] => [.str (asc "{}")]
+  | .arr (x :: xs) => .word (asc "array") :: .op [91] :: (elemsToks F (x :: xs) ++ [.op [93]])
   | .obj kvs => [.str (mapToJSON F kvs)]
 def elemsToks (F : FloatFmt) : List GoVal → List Tok
   | [] => []
@@ -53,6 +54,9 @@ def elemsToks (F : FloatFmt) : List GoVal → List Tok
 end
 
 /-! ### reading -/
+
+theorem Reads.cast' {B : Bnd} {t t' : Bytes} {k k' : List Tok} (h : Reads B t k) (ht : t = t') (hk : k = k') : Reads B t' k' := by
+  subst ht; subst hk; exact h
 
 theorem reads_kw (w : Bytes) (folded : Bytes) (hw : w ≠ []) (hstart : ∀ c, w.head? = some c → isIdentStart c = true)
     (hcont : ∀ d ∈ w, isIdentCont d = true) (hf : fold w = folded) : Reads wordB w [.word folded] := by
@@ -98,8 +102,13 @@ theorem reads_value (F : FloatFmt) (hS : FloatSqlOK F) : ∀ v : GoVal, Reads cl
   | .obj kvs => by
     simp only [formatSQLValue, valueToks]
     exact (reads_quoteLiteral _).weaken closeB_strB
-  | .arr xs => by
+  | .arr [] => by
     simp only [formatSQLValue, valueToks]
+    have h := (reads_quoteLiteral (asc "{}")).weaken closeB_strB
+    exact Reads.cast' h (by decide) rfl
+  | .arr (x :: xs') => by
+    simp only [formatSQLValue, valueToks]
+    generalize hxs : x :: xs' = xs
     have hkw := reads_kw (asc "ARRAY") (asc "array") (by decide) (by decide) (by decide) (by decide)
     have hopen := reads_self 91 (by decide) (by decide)
     have hclose := reads_self 93 (by decide) (by decide)
@@ -202,8 +211,9 @@ theorem value_valueToks (F : FloatFmt) (hF : ExportJson.FloatOK F) : ∀ (v : Go
   | .obj kvs, more => by
     simp only [value, valueToks, List.cons_append, List.nil_append]
     exact one_cons _ _ _ (ExportJson.textAgrees_mapToJSON F hF kvs)
-  | .arr xs, more => by
-    have ih := values_elemsToks F hF xs (.op [93] :: more)
+  | .arr [], more => by simp [value, valueToks, one, Export.asc, Spec.SqlLex.asc]
+  | .arr (x :: xs'), more => by
+    have ih := values_elemsToks F hF (x :: xs') (by simp) (.op [93] :: more)
     simp only [value, valueToks, List.cons_append, List.append_assoc, List.nil_append]
     rw [one_cons _ _ _ (isWord_asc "array")]
     simp only [Option.bind_some, Option.bind_eq_bind]
@@ -213,13 +223,13 @@ theorem value_valueToks (F : FloatFmt) (hF : ExportJson.FloatOK F) : ∀ (v : Go
     simp [one, isOp]
 termination_by v => sizeOf v
 decreasing_by all_goals (simp_wf; try omega)
-theorem values_elemsToks (F : FloatFmt) (hF : ExportJson.FloatOK F) : ∀ (xs : List GoVal) (more : List Tok),
+theorem values_elemsToks (F : FloatFmt) (hF : ExportJson.FloatOK F) : ∀ (xs : List GoVal), xs ≠ [] → ∀ (more : List Tok),
     values F xs (elemsToks F xs ++ more) = some more
-  | [], more => by simp [values, elemsToks]
-  | [x], more => by simp only [values, elemsToks]; exact value_valueToks F hF x more
-  | x :: y :: rest, more => by
+  | [], h, _ => absurd rfl h
+  | [x], _, more => by simp only [values, elemsToks]; exact value_valueToks F hF x more
+  | x :: y :: rest, _, more => by
     have h1 := value_valueToks F hF x (.op [44] :: (elemsToks F (y :: rest) ++ more))
-    have h2 := values_elemsToks F hF (y :: rest) more
+    have h2 := values_elemsToks F hF (y :: rest) (by simp) more
     simp only [values, elemsToks, List.append_assoc, List.cons_append]
     rw [h1]
     simp only [Option.bind_some, Option.bind_eq_bind]
